@@ -3,7 +3,7 @@
    model Model/RegTable.v (reg_init mirrors register_init step by step and is tied to it by correspondence over the layout grid).
    The post-state is proved for plain tables (all areas memory-backed and default-loading); for tables with callback-backed, read-only
    or skip-defaults areas it is correspondence-tested only. *)
-From Ufw Require Import Base.Bits Model.RegTable Proof.RegLemmas Proof.RegInitLemmas Proof.RegInvariant Proof.RegMemory Proof.RegBlockInv Proof.RegInitInv.
+From Ufw Require Import Base.Bits Model.RegTable Proof.RegLemmas Proof.RegInitLemmas Proof.RegInvariant Proof.RegMemory Proof.RegBlockInv Proof.RegInitInv Proof.RegInitZero.
 Local Open Scope N_scope.
 
 (* initialisation succeeds exactly when there is an area, the areas and the entries are each ordered and disjoint (every element starts at or behind the end of its predecessor), and the defaults load *)
@@ -117,6 +117,15 @@ Theorem C04_post_state :
           reg_get t' idx = (ASuccess, 0, Some {| v_type := e_type e; v_bits := e_default e |})).
 Proof. exact (@init_establishes_invariant). Qed.
 Print Assumptions C04_post_state.
+
+(* post-state, second half: every word of the table memory that no register covers is zero after a successful initialisation *)
+Theorem C04_post_state_other_words_zero :
+  forall t t' : table,
+         plain_table t ->
+         reg_init t = (ISuccess, 0, t') ->
+         forall x w : N, word_at t' x = Some w -> (forall e : entry, In e (t_entries t) -> ~ covers e x) -> w = 0.
+Proof. exact (@init_other_words_zero). Qed.
+Print Assumptions C04_post_state_other_words_zero.
 
 (* a failed initialisation leaves the table uninitialised *)
 Theorem C04_failure_uninitialised :
